@@ -3986,7 +3986,15 @@ class RemoteRepository(_mod_repository.Repository, _RpcHelper, lock._RelockDebug
         if response_tuple[0] != b"ok":
             raise transport_errors.UnexpectedSmartServerResponse(response_tuple)
         serializer_format = response_tuple[1].decode("ascii")
-        serializer = serializer_format_registry.get(serializer_format)
+        try:
+            serializer = serializer_format_registry.get(serializer_format)
+        except KeyError:
+            # The server names the repository's *inventory* serializer format
+            # (Repository.get_serializer_format(), as bzr servers always did).
+            # For rich-root and subtree knit/pack formats (6, 7) that is not
+            # the number of a revision serializer: the revision texts are in
+            # this repository's own revision serializer format.
+            serializer = self._revision_serializer
         byte_stream = response_handler.read_streamed_body()
         decompressor = zlib.decompressobj()
         chunks = []
